@@ -775,6 +775,11 @@ def method(I, recv, name, args, e, env):
             return Iter([I.call_closure(args[0], [x]) for x in items])
         if name == "filter":
             return Iter([x for x in items if I.truth(I.call_closure(args[0], [x]))])
+        if name == "flat_map":
+            out = []
+            for x in items:
+                out += into_iter(I, I.call_closure(args[0], [x]))
+            return Iter(out)
         if name == "filter_map":
             out = []
             for x in items:
